@@ -331,7 +331,7 @@ def dot_case(spec, gridding, use_files, seed):
     try:
         with H.quiet():
             s1 = H.new_sim(spec, solver=H.TIGHT, **kw)
-            jv = np.array(s1.jvec(v.copy()))
+            jv = np.array(s1.jvec(v))          # the caller's own array, used again below
             s2 = H.new_sim(spec, solver=H.TIGHT, **kw)
             _ = s2.misfit
             wts = np.array(s2.data.weights.data, dtype=float)
@@ -339,7 +339,7 @@ def dot_case(spec, gridding, use_files, seed):
             w *= np.where(np.isfinite(wts), np.sqrt(wts), 0.0) * 1.0
             ok = np.isfinite(w / wts)
             w = np.where(ok, w, 0.0)
-            jt = np.array(s2.jtvec(w.copy()))
+            jt = np.array(s2.jtvec(w))
     finally:
         if tmp:
             shutil.rmtree(tmp, ignore_errors=True)
